@@ -23,6 +23,10 @@
 //     n in ntr <==> n in tr or n in m ("without losing any of its own" + "gains" exactly the moved ones); every node of ntr is a
 //     node of tr or of m.  DEPOTS: a moved end depot replaces the receiver's end depot (Tour::insert_path), a dummy receiver
 //     takes no depots, a provider without activities vanishes with its depots -- hence the activity / upper-bound wording.
+//     CLOSURE (tag C10.fit_path_into_tour.result_satisfies_the_schedule_invariants_again): fit_outcome also states tour_len_ok(ntr)
+//     (A-len is re-established; the loop invariant carried it already), and the tour invariants of fit_pre -- well-formed over the
+//     schedule's network, exact caches, same kind of tour, at most 2^17 + 2 nodes -- hold again for BOTH new tours
+//     (lemma_fit_tours_closed; the provider's new tour is a sub-sequence of its duplicate-free old one).
 //   Proved with the loop invariant fit_inv (k nodes of P decided; m is a sub-sequence of P[..k]; fit_provider_ok; fit_receiver_ok;
 //   while a path remains it is P[k..], has an activity, and is a contiguous BLOCK of the provider's current tour -- this is what
 //   makes `new_tour_provider.as_ref().unwrap()` safe: a provider emptied to None has nothing but depots left, so the remaining
@@ -49,6 +53,26 @@
 //       .unserved_passengers_delta_exact (fr_unserved_after: for some outcome m the exact delta un_sum over m),
 //       .maintenance_violation_exact (or_transitions_after: transitions consistent with the new tours, membership, violation ==
 //       from-scratch sum, types of neither participant untouched).
+//   (5) C10.fit_reassign.result_satisfies_the_schedule_invariants_again -- CLOSURE, the induction step of C10 / C09 ("after any
+//       sequence of schedule modifications", "for every reachable schedule"): the result `res` satisfies the schedule-invariant
+//       part of fr_pre AGAIN.  Derived from the effect clauses (1) + (3) alone (Schedule::fr_effect; lemma_fr_closed and one lemma
+//       per conjunct in env/fit_reassign_shim.vs; in the body `res` is a ghost copy of what the tail expression builds):
+//         ids        res.ids_ok() (= the clause ids_stay_valid read with the unchanged counter) and listings_ok(res);
+//         usage      usage_exact over res's OWN network;
+//         part_ok    fr_parts_closed: no vehicle / dummy appears, and EVERY v with part_ok in self that still has a tour in res has
+//                    part_ok in res (receiver: A-len of fr_pre + the new clause of fit_outcome; provider, if it still exists: a
+//                    sub-sequence of its old tour; everybody else: the frame, the same transition key set);
+//         cycles     res.or_transitions_ok() INCLUDING its magnitude clause len_sum + 2 <= 2^17: fit_reassign adds no vehicle, a
+//                    consistent transition holds as many vehicles as its lookup has keys (lemma_fr_total_len_is_lookup, text of
+//                    env/sched_ctor_shim.vs), and the new lookup's keys are among the old one's -- no extra hypothesis needed;
+//         costs      fr_costs_closed: the relation of fr_pre verbatim for the same two participants in res, and for ANY two distinct
+//                    vehicles a, b of the next modification under the weakest hypothesis on self: self.costs covers the old tours
+//                    of p, rcv, a and b together (the relation of fr_pre is indexed by the participants; the argument-free form is
+//                    C09 "costs = sum of all tours' costs + non-negative terms", which the bundle does not contain).
+//       Treated as ABOUT THE ARGUMENTS (not closed): provider != receiver; the segment is a segment of the provider's tour with
+//       an activity; A-len |tr| + |tp| <= 2^17 + 2; all of fr_pre_outcomes (tfu_pre for the moved nodes, u64 room for the new
+//       tours' costs, A-counter).  The bundle has NO formation / tour agreement conjunct (formations enter through tfu_pre for
+//       the moved nodes only), so none is closed here.
 //
 // ASSUMPTIONS introduced / used by this slice:
 //   A-stub   callees are trusted stubs with EXACTLY the contract text of the slice that verifies their body (tools/stub_sync.py: 0
@@ -98,7 +122,11 @@
 //   only ever moves single nodes still satisfies the contract); that every moved node really was conflict-free in tr is covered
 //   only through "the receiver loses no activity"; on Err nothing is claimed except (4) (not WHEN the formation update refuses);
 //   provider == receiver; depots: see fit_receiver_ok; that the callers establish the preconditions; the input schedule `self` is
-//   `&self` (untouched by the type system).
+//   `&self` (untouched by the type system).  Closure (5): covered for the schedule-invariant part of fr_pre; NOT covered: the
+//   caller-side bundle fr_pre_outcomes for the NEXT modification (tfu_pre = formations exist / u32 magnitudes / the unserved pair
+//   for the nodes moved next, u64 room for the costs, A-counter) -- these are not invariants of the schedule but guarantees per
+//   call; the agreement formation <-> tours (C03) as a schedule invariant (not in the bundle); the argument-free form of the costs
+//   relation (see (5)).
 #![feature(allocator_api)]
 use vstd::prelude::*;
 use std::ops::Add;
@@ -390,6 +418,12 @@ use self::trs::*;
         // any of its own (fit)"; "Returns: (new_tour_provider, new_tour_receiver, moved_nodes).  None for new_tour_provider
         // means there is no tour left."
         self.fit_outcome(path.node_sequence@, provider, receiver, r.0, r.1, r.2@), // @obl C13.fit_path_into_tour.provider_loses_receiver_gains_only_moved_nodes
+        // C10 / C09, CLOSURE: the tour invariants of fit_pre (well-formed over the schedule's network, exact caches, same kind of
+        // tour, A-len: at most 2^17 + 2 nodes) hold again for the two new tours
+        r.1.wf() && r.1.caches_ok() && *r.1.network == *self.network && tour_len_ok(r.1.nodes@)
+            && r.1.is_dummy == self.sp_tour_of(receiver).is_dummy, // @obl C10.fit_path_into_tour.result_satisfies_the_schedule_invariants_again
+        r.0 is Some ==> r.0.unwrap().wf() && r.0.unwrap().caches_ok() && *r.0.unwrap().network == *self.network
+            && tour_len_ok(r.0.unwrap().nodes@) && r.0.unwrap().is_dummy == self.sp_tour_of(provider).is_dummy, // @obl C10.fit_path_into_tour.result_satisfies_the_schedule_invariants_again
 //@closure-params map_while#0
     (usize, NodeIdx)
 //@closure map_while#0
@@ -456,6 +490,7 @@ use self::trs::*;
             }
 //@before "(new_tour_provider, new_tour_receiver, moved_nodes)"
         proof { lemma_fit_done(self, pn, provider, rcv, new_tour_provider, new_tour_receiver, moved_nodes@, k); } // @obl C13.fit_path_into_tour.provider_loses_receiver_gains_only_moved_nodes
+        proof { lemma_fit_tours_closed(self, pn, provider, rcv, new_tour_provider, new_tour_receiver, moved_nodes@); } // @obl C10.fit_path_into_tour.result_satisfies_the_schedule_invariants_again
 //@end
 
 // ---- the function under contract ------------------------------------------------------------------------------
@@ -496,6 +531,14 @@ use self::trs::*;
         r is Ok ==> self.fr_unserved_after(segment, provider, receiver, r->Ok_0.tours@, r->Ok_0.dummy_tours@, r->Ok_0.unserved_passengers), // @obl C09.fit_reassign.unserved_passengers_delta_exact
         r is Ok ==> self.or_transitions_after(provider, receiver, r->Ok_0.next_period_transitions@, r->Ok_0.maintenance_violation,
             r->Ok_0.vehicles@, r->Ok_0.tours@), // @obl C09.fit_reassign.maintenance_violation_exact
+        // (5) C10 / C09, CLOSURE: the result satisfies the schedule-invariant part of fr_pre again (derived from the effect
+        // clauses above, lemma_fr_closed): ids + listings; the depot table (over the result's own network); part_ok of every
+        // vehicle / dummy that had it and still has a tour; the rotation cycles incl. the magnitude clause; the costs relation
+        r is Ok ==> r->Ok_0.ids_ok() && listings_ok(r->Ok_0.vehicles@, r->Ok_0.dummy_tours@, r->Ok_0.vehicle_ids_grouped_and_sorted@, r->Ok_0.dummy_ids_sorted@), // @obl C10.fit_reassign.result_satisfies_the_schedule_invariants_again
+        r is Ok ==> usage_exact(r->Ok_0.depot_usage@, &r->Ok_0.network, r->Ok_0.vehicles@, r->Ok_0.tours@), // @obl C10.fit_reassign.result_satisfies_the_schedule_invariants_again
+        r is Ok ==> self.fr_parts_closed(r->Ok_0), // @obl C10.fit_reassign.result_satisfies_the_schedule_invariants_again
+        r is Ok ==> r->Ok_0.or_transitions_ok(), // @obl C10.fit_reassign.result_satisfies_the_schedule_invariants_again
+        r is Ok ==> self.fr_costs_closed(provider, receiver, r->Ok_0), // @obl C10.fit_reassign.result_satisfies_the_schedule_invariants_again
 //@first
         // the big predicates stay folded in this body: the lemmas of env/fit_reassign_shim.vs unfold them
         hide(Schedule::fr_pre);
@@ -523,6 +566,10 @@ use self::trs::*;
         hide(usage_exact);
         hide(usage_exact_for);
         hide(usage_same_except_two);
+        hide(Schedule::fr_parts_closed);
+        hide(Schedule::fr_costs_closed);
+        hide(Schedule::or_transitions_ok);
+        hide(Schedule::part_ok);
         proof { lemma_fr_setup(self, segment, provider, receiver); }
 //@before "let mut vehicles"
         proof {
@@ -557,6 +604,12 @@ use self::trs::*;
             lemma_fr_unserved_post(self, segment, provider, receiver, ntp, ntr, mv, tours@, dummy_tours@, unserved_passengers);
             lemma_usage_exact_after(self, self.depot_usage@, depot_usage@, self.vehicles@, self.tours@, Some(provider), ntp, receiver, ntr); // @obl C09.fit_reassign.depot_usage_exact
         }
+        // CLOSURE: `res` is the schedule the tail expression builds (a ghost copy: the result itself only exists there)
+        let ghost res = Schedule { vehicles: vehicles, tours: tours, next_period_transitions: next_period_transitions,
+            train_formations: train_formations, depot_usage: depot_usage, dummy_tours: dummy_tours, vehicle_counter: self.vehicle_counter,
+            vehicle_ids_grouped_and_sorted: vehicle_ids_grouped_and_sorted, dummy_ids_sorted: dummy_ids_sorted,
+            unserved_passengers: unserved_passengers, maintenance_violation: maintenance_violation, costs: costs, network: self.network };
+        proof { lemma_fr_closed(self, segment, provider, receiver, res); } // @obl C10.fit_reassign.result_satisfies_the_schedule_invariants_again
 //@end
 
 } // mod tr
